@@ -132,6 +132,29 @@ pub fn gen_header_wf(rng: &mut Rng) -> GHeader {
         let tag = rand_tag(rng);
         h.push(tag, ty, &d);
     }
+    if rng.chance(1, 2) {
+        // entries under tags the library itself reads, in their natural type and with SMALL values (sizes and counts
+        // comparable to the real lengths of these tiny packages): code that keys on a particular tag is exercised
+        // even where the property says the tag must not matter
+        const MEANINGFUL: &[(u32, u32)] = &[
+            (1000, 4), (270, 5), (1007, 4), (271, 5), (1004, 7), (269, 6), (273, 6), (268, 7), (267, 7), (1002, 7), (1005, 7),
+            (278, 8), (1008, 7), (1125, 6), (1126, 6), (5092, 8), (5093, 4), (5097, 8), (1028, 4), (5008, 5), (1009, 4), (5009, 5),
+            (1030, 3), (1117, 8), (1116, 4), (1118, 8), (1106, 4), (100, 8),
+        ];
+        for _ in 0..(1 + rng.below(3)) {
+            let (tag, ty) = *rng.pick(MEANINGFUL);
+            let cnt = 1 + rng.below(2) as usize;
+            let d = match ty {
+                3 => TData::U16((0..cnt).map(|_| rng.below(300) as u16).collect()),
+                4 => TData::U32((0..cnt).map(|_| rng.below(300) as u32).collect()),
+                5 => TData::U64((0..cnt).map(|_| rng.below(300)).collect()),
+                6 => TData::Str(rng.pick(&["gzip", "none", "9", "0123abcd", ""]).as_bytes().to_vec()),
+                7 => { let k = 1 + rng.below(20) as usize; TData::Bytes(rng.bytes(k)) }
+                _ => TData::Strs((0..cnt).map(|_| rng.pick(&["a", "/", "0123", ""]).as_bytes().to_vec()).collect()),
+            };
+            h.push(tag, ty, &d);
+        }
+    }
     if rng.chance(1, 3) {
         // trailing slack in the store / odd total sizes (all residues mod 8)
         let k = rng.below(9) as usize;
